@@ -328,5 +328,5 @@ pub fn run_all(ctx: &mut Ctx, replay: Option<&Path>) {
     }
     ctx.regressions(&k);
     ctx.exhaustive(&k, "all parent x offspring populations of size <= 2 over 3 individuals (two tied) x {Merge, Discard, KeepBetter, MuPlusLambda/Random/Generational with mu in 0..=5} x {execute, replace}", exhaustive().into_iter());
-    ctx.random(&k, case_strategy(), ctx.tier.pick(60_000, 600_000));
+    ctx.random(&k, case_strategy(), ctx.tier.pick(200_000, 1_000_000));
 }
